@@ -775,6 +775,14 @@ class SK(object):
     OPS = {ast.Add: o.add, ast.Sub: o.sub, ast.Mult: o.mul, ast.Div: o.truediv, ast.FloorDiv: o.floordiv, ast.Mod: o.mod, ast.Pow: o.pow}
 
     def e_BinOp(self, e, env):
+        # [0.0] * n  /  n * [0.0]: the replicated float literal is a placeholder fill, like the element of an initialiser comprehension
+        if isinstance(e.op, ast.Mult):
+            for lst, cnt in ((e.left, e.right), (e.right, e.left)):
+                if isinstance(lst, ast.List) and len(lst.elts) == 1 and isinstance(lst.elts[0], ast.Constant) and (isinstance(lst.elts[0].value, float) or lst.elts[0].value is None):
+                    n_ = self.ev(cnt, env)
+                    if isinstance(n_, int) and not isinstance(n_, bool):
+                        v_ = lst.elts[0].value
+                        return [Tok('PHN') if v_ is None else Tok('PH0', v_) for _ in range(max(0, n_))]
         a, b = self.ev(e.left, env), self.ev(e.right, env)
         if isinstance(e.op, ast.Add) and isinstance(a, (list, str, tuple)) and isinstance(b, type(a)):
             return a + b
